@@ -30,6 +30,12 @@ CLAIMED = {
  "C17": dict(cat="other", technique="CrossHair on the real filter_nocl_comment_tokens with the comment text assembled from solver-chosen parts; skeleton differential through scan_file with the marker at a symbolic line",
              text="Bounded-exhaustive through the solver over the stated pools (leader, blanks, every letter case, tails; all short bodies over a small alphabet); line numbers unbounded.",
              ref="DESIGN.md 3/C17"),
+ "C01": dict(cat="other", technique="CrossHair on the real scan_file over layout-symbolic skeletons (real-lexer tokens; line gaps and indentation columns unbounded solver variables) vs. generator ground truth; replay as re-rendered text",
+             text="For each generated canonical program the solver decides name/order/span/length for EVERY layout (all blank-line counts at up to 10 boundaries at once, all indentation widths). The program family itself is enumerated up to a size bound (the bound), two classes of genuine defects are listed as known findings.",
+             ref="DESIGN.md 3/C01"),
+ "C04": dict(cat="other", technique="CrossHair on the real scan_file, canonical vs. transformed token stream (symbolic insertion counts, inserted comment/whitespace tokens) and real-lexer tokens of commented source text",
+             text="Metamorphic, solver-quantified over all insertion counts simultaneously; comment placement patterns are fixed families (everywhere / column-1 / mixed styles) and the source-text variants are lexed by the real lexer so lexer artefacts (zero-length tokens) are in scope.",
+             ref="DESIGN.md 3/C04"),
 }
 NA = {}
 def main():
